@@ -253,20 +253,25 @@ def e_imag(v):
     return v.imag if hasattr(v, 'imag') else 0
 
 
+def _f64(r):
+    """numpy's floor/ceil/fix/round return floats: a pinned/constant result is handed on as numpy.float64"""
+    return rnp.float64(r) if isinstance(r, builtins.int) else r
+
+
 def e_floor(v):
-    return sx_floor(v) if isinstance(v, SNum) else (rnp.floor(v) if not isinstance(v, SBool) else v.num())
+    return _f64(sx_floor(v)) if isinstance(v, SNum) else (rnp.floor(v) if not isinstance(v, SBool) else v.num())
 
 
 def e_ceil(v):
-    return sx_ceil(v) if isinstance(v, SNum) else rnp.ceil(v)
+    return _f64(sx_ceil(v)) if isinstance(v, SNum) else rnp.ceil(v)
 
 
 def e_fix(v):
-    return sx_fix(v) if isinstance(v, SNum) else rnp.fix(v)
+    return _f64(sx_fix(v)) if isinstance(v, SNum) else rnp.fix(v)
 
 
 def e_round(v):
-    return sx_round(v) if isinstance(v, SNum) else rnp.round(v)
+    return _f64(sx_round(v)) if isinstance(v, SNum) else rnp.round(v)
 
 
 def e_sign(v):
@@ -385,9 +390,31 @@ def trig(v, which):
             ex = {Fraction(0): (1, 0), Fraction(1, 4): (0, 1), Fraction(1, 2): (-1, 0), Fraction(3, 4): (0, -1)}
             if c in ex:
                 return float(ex[c][0 if which == 'cos' else 1])
+            if 24 % c.denominator == 0 and c.denominator in (8, 12, 6, 3):
+                return _exact_trig(c, which)
         z = SCx({ph: (P1, P0)})
         return z.real if which == 'cos' else z.imag
     return getattr(rnp, which)(v)
+
+
+def _exact_trig(c, which):
+    """cos / sin of 2 pi c for c = k/8 or k/12: exact algebraic numbers over sqrt(2), sqrt(3)"""
+    k24 = int(c * 24) % 24
+    half = Fraction(1, 2)
+    r2 = SNum(core._sqrt_prime(2), False)
+    r3 = SNum(core._sqrt_prime(3), False)
+    base = {0: (1, 0), 2: (r3 * half, half), 3: (r2 * half, r2 * half), 4: (half, r3 * half), 6: (0, 1)}   # angle = k24 * 15 deg, first quadrant
+    q, r = divmod(k24, 6)
+    if r not in base and (6 - r) not in base:
+        raise SymxUnsupported(f'exact trig of {c} turns')
+    if r in base:
+        co, si = base[r]
+    else:
+        si, co = base[6 - r]
+    for _ in range(q):              # rotate by 90 degrees
+        co, si = -si, co
+    v = co if which == 'cos' else si
+    return v
 
 
 def trig_atom(v, which):
